@@ -39,7 +39,7 @@ THEOREMS = [
     'SF.C17.bus_inv', 'SF.C17.bus_inv_reach', 'SF.C17.bus_lru', 'SF.C17.bus_lru_hit', 'SF.C17.bus_faithful',
     'SF.C17.bus_faithful_step', 'SF.C17.reader_reads_eager', 'SF.C17.bus_faithful_pinned_reader_counterexample', 'SF.C17.bus_element_is_frame', 'SF.C17.bus_values_frames',
     'SF.C17.bus_no_internal_error', 'SF.C17.bus_derive', 'SF.C17.bus_labels_fixed',
-    'SF.C17.bus_bound_after_failed_read_counterexample', 'SF.C17.bus_sort_values_counterexample',
+    'SF.C17.bus_bound_after_failed_read_pinned_counterexample', 'SF.C17.bus_sort_values_counterexample',
     'SF.C17.store_reader_batches_flatten', 'SF.C17.store_reader_batch_size',
     'SF.C17.store_stale', 'SF.C17.bus_stale_raises', 'SF.C17.store_stale_iff', 'SF.C17.store_write_current', 'SF.C17.store_open_current',
 ]
@@ -64,11 +64,10 @@ ASSUMPTIONS = ['file events change the mtime to a different value (2 s apart); a
                'single-threaded use: the file cannot change between two reads of one access']
 BUDGET = {'quick': 60, 'thorough': 700}
 
-F40 = 'F60-bus-lru-phantom-after-failed-read'
 F41 = 'F61-bus-sort-values-max-persist'
 F42 = 'F62-bus-placeholder-from-get-iter-element'
 F43 = 'F63-sqlite-integer-index-row-order'
-TAGS = {'phantom': F40, 'sortv': F41, 'placeholder': F42, 'sqlite_order': F43}
+TAGS = {'sortv': F41, 'placeholder': F42, 'sqlite_order': F43}
 
 FMT_CORE = ['zip_pickle', 'zip_csv', 'zip_tsv', 'sqlite']
 FMT_OPTIONAL = {'xlsx': ('openpyxl', 'xlsxwriter'), 'hdf5': ('tables',), 'zip_parquet': ('pyarrow',)}
@@ -808,7 +807,6 @@ class Ref:
         self.labels = list(labels)
         self.mp = mp
         self.lru = collections.OrderedDict((l, None) for l in loaded)
-        self.tainted = False
 
     def access(self, labs):
         for l in labs:
@@ -960,15 +958,13 @@ def eval_hist(ctx, c, outs):
                         oracle_frame(v, origin, f'bus {bi}', step)
             if bus._loaded_all != all(flags):
                 fails.append(Failure('oracle', f'step {step}: bus {bi} _loaded_all={bus._loaded_all} flags={flags}', c))
-            tag = 'phantom' if ref.tainted else None
             if ref.mp is not None and nload > ref.mp:
-                fails.append(Failure('oracle', f'{fmt} step {step}: bus {bi} holds {nload} frames with max_persist={ref.mp}', c, detail={'tag': tag}))
-            if not ref.tainted:
-                real_loaded = [l for l, fl in zip(labs, flags) if fl]
-                if set(real_loaded) != set(ref.lru):
-                    fails.append(Failure('oracle', f'{fmt} mp={ref.mp} step {step}: bus {bi} loaded {real_loaded}, least-recently-used reference says {list(ref.lru)}', c))
-                elif ref.mp is not None and list(getattr(bus, '_last_accessed', ())) != list(ref.lru):
-                    fails.append(Failure('oracle', f'{fmt} mp={ref.mp} step {step}: bus {bi} recency order {list(getattr(bus, "_last_accessed", ()))} != reference {list(ref.lru)}', c))
+                fails.append(Failure('oracle', f'{fmt} step {step}: bus {bi} holds {nload} frames with max_persist={ref.mp}', c))
+            real_loaded = [l for l, fl in zip(labs, flags) if fl]
+            if set(real_loaded) != set(ref.lru):
+                fails.append(Failure('oracle', f'{fmt} mp={ref.mp} step {step}: bus {bi} loaded {real_loaded}, least-recently-used reference says {list(ref.lru)}', c))
+            elif ref.mp is not None and list(getattr(bus, '_last_accessed', ())) != list(ref.lru):
+                fails.append(Failure('oracle', f'{fmt} mp={ref.mp} step {step}: bus {bi} recency order {list(getattr(bus, "_last_accessed", ()))} != reference {list(ref.lru)}', c))
 
     def corr_world(step, mworld):
         mstore, mb = mworld[0], mworld[1:]
@@ -1081,12 +1077,16 @@ def eval_hist(ctx, c, outs):
                                 newbus = (res, want)
                 else:
                     if status[1] == 'storeMutation' and expect_err == 'storeMutation':
-                        if ref.mp is not None:
-                            ref.tainted = True
+                        # a failed access loads and drops nothing; the labels served from the cache before the first
+                        # label that needed the store count as used
+                        served = []
+                        for l in want:
+                            if not flags0[l]:
+                                break
+                            served.append(l)
+                        ref.access(served)
                     elif expect_err is None:
-                        # F60: an earlier access on this Bus failed with StoreFileMutation (phantom in the recency list), the
-                        # Bus now holds more than max_persist frames and Bus.__init__ refuses the selection (ErrorInitBus)
-                        tag = 'phantom' if (ref.tainted and status[1] == 'init' and int(bus._loaded.sum()) > ref.mp) else None
+                        tag = None
                         if pinned_reader_variant() and mp == 1 and multi and any(cfg_differs(l) for l in need) and status[1] != 'storeMutation':
                             abort = True  # historical reader only: the read with the default config could not build the frame
                         fails.append(Failure('oracle', f'{fmt} mp={mp} step {step}: access {key} raised {type(status[2]).__name__}: {status[2]}', c, detail={'tag': tag}))
@@ -1114,11 +1114,6 @@ def eval_hist(ctx, c, outs):
                         fails.append(Failure('oracle', f'{fmt} step {step}: {o[2]} read from a changed/removed file', c))
                     if status != 'ok' and not (need and stale and status[1] == 'storeMutation'):
                         fails.append(Failure('oracle', f'{fmt} step {step}: {o[2]} raised {type(status[2]).__name__}: {status[2]}', c))
-                elif ref.tainted:
-                    # the recency list of this Bus holds a phantom (F40): the reference cannot say which label the
-                    # iteration evicts, hence not whether a read is needed; only the delivered frames are checked
-                    if status != 'ok' and not (stale and status[1] == 'storeMutation'):
-                        fails.append(Failure('oracle', f'{fmt} step {step}: {o[2]} raised {type(status[2]).__name__}: {status[2]}', c))
                 else:
                     sim = Ref(ref.labels, ref.mp, list(ref.lru))
                     failed = False
@@ -1127,14 +1122,13 @@ def eval_hist(ctx, c, outs):
                             failed = True
                             break
                         sim.access([l])
-                    ref.lru = sim.lru
+                    ref.lru = sim.lru   # (labels visited before a failing read count as used)
                     if failed:
-                        ref.tainted = True
                         if status == 'ok':
                             fails.append(Failure('oracle', f'{fmt} step {step}: {o[2]} read from a changed/removed file', c))
                         elif status[1] != 'storeMutation':
                             fails.append(Failure('oracle', f'{fmt} step {step}: {o[2]} raised {type(status[2]).__name__}, expected StoreFileMutation', c))
-                    elif status != 'ok' and not ref.tainted:
+                    elif status != 'ok':
                         fails.append(Failure('oracle', f'{fmt} step {step}: {o[2]} raised {type(status[2]).__name__}: {status[2]}', c))
                 if status == 'ok':
                     for l, v in zip(labs, result):
@@ -1235,18 +1229,10 @@ def eval_hist(ctx, c, outs):
                             failed = True
                             break
                         sim.access([l])
-                    if ref.tainted:
-                        # phantom in the recency list (F40): the reference cannot tell whether a read is needed
-                        if status != 'ok' and stale and status[1] == 'storeMutation':
-                            expect_err = 'storeMutation'
-                        elif mp is not None and mp < n:
-                            tag_on_err = 'sortv'
-                    elif failed:
+                    if mp is not None or not failed:
+                        ref.lru = sim.lru   # with max_persist the labels visited before a failing read count as used
+                    if failed:
                         expect_err = 'storeMutation'
-                        if ref.mp is not None:
-                            ref.tainted = True
-                    elif not ref.tainted:
-                        ref.lru = sim.lru
                     if not failed and mp is not None and mp < n:
                         tag_on_err = 'sortv'
                 if status == 'ok':
@@ -1258,8 +1244,6 @@ def eval_hist(ctx, c, outs):
                         newbus = (result, want)
                 elif expect_err is None:
                     tag = tag_on_err if status[1] == 'init' else None
-                    if tag is None and status[1] == 'init' and ref.tainted and int(bus._loaded.sum()) > ref.mp:
-                        tag = 'phantom'   # F60: the parent holds more than max_persist frames: __init__ refuses the selection
                     fails.append(Failure('oracle', f'{fmt} mp={mp} step {step}: {k} on a Bus of {n} raised {type(status[2]).__name__}: {status[2]}', c,
                                          detail={'tag': tag}))
             elif k == 'touch':
